@@ -2937,8 +2937,14 @@ func (r *Resolver) lookupV4Nss(ctx context.Context, q dns.Question, authservers 
 		if err != nil {
 			if errors.Is(err, middleware.ErrRecursionWorkLimit) ||
 				errors.Is(err, middleware.ErrMaxRecursion) ||
+				errors.Is(err, middleware.ErrResolutionShed) ||
 				errors.Is(err, context.Canceled) ||
 				errors.Is(err, context.DeadlineExceeded) {
+				// ErrResolutionShed: the address lookup was refused for lack
+				// of in-flight capacity. That says nothing about the
+				// delegated zone's servers, so it must end this request as a
+				// request-local failure rather than leave the delegation
+				// with no servers and be recorded as a zone failure.
 				return err
 			}
 			if errors.Is(err, middleware.ErrResolutionAttemptLimit) {
